@@ -24,6 +24,9 @@ MODULES = {
     "C10": "vf.c10",
     "C11": "vf.c11",
     "C12": "vf.c12",
+    "C13": "vf.c13",
+    "C14": "vf.c14",
+    "C15": "vf.c15",
     "C19": "vf.c19",
 }
 
